@@ -27,6 +27,9 @@ void vf_lg_stop_step2(VLogger *l) { l->Logger::enqueue(std::string()); }
 bool vf_lg_stopping(VLogger *l) { return bool(l->_stopping); }
 // queue elements: copy construction / inspection / destruction through the real LogElement members
 void vf_le_copy(LE *dst, const LE *src) { new (dst) LE(*src); }
+// an element as the queue delivers it: same value, level and (non-)empty text as the one pushed
+void vf_le_make(LE *dst, unsigned val, unsigned level, bool empty) { new (dst) LE(7, empty ? std::string() : std::string("x"), Logger::Level(level), nullptr, val); }
+unsigned vf_le_level(const LE *e) { return unsigned(e->_level); }
 unsigned vf_le_val(const LE *e) { return e->_val; }
 bool vf_le_empty(const LE *e) { return e->_str.empty(); }
 unsigned vf_le_size() { return sizeof(LE); }
